@@ -56,7 +56,17 @@ Ent(v, c) == [v |-> v, t |-> Ticks(v), rest |-> c = <<>>, notes |-> c, bpm |-> 0
 OneBarProg(k, m, ents, ins, rep) == [bpm |-> 120, repeat |-> rep, tracks |-> <<[name |-> <<76, 101, 97, 100>>, instr |-> ins, bars |-> <<[key |-> k, meter |-> m, entries |-> ents]>>]>>]
 NoInstr == [kind |-> "none", nr |-> 0]
 Midi(nr) == [kind |-> "midi", nr |-> nr]
+\* compositions in which tracks have equal content (a part doubled by another instrument; an ostinato in two tracks; X Y X)
+TrackOf(nm, ins, bars) == [name |-> nm, instr |-> ins, bars |-> bars]
+BarX == [key |-> <<"C">>, meter |-> <<4,4>>, entries |-> <<Ent(Q, OneNote(1, 64)), Ent(Q, <<>>), Ent(Q, OneNote(1, 64)), Ent(Q, OneNote(1, 64))>>]
+BarY == [key |-> <<"C">>, meter |-> <<4,4>>, entries |-> <<Ent([b |-> 3, d |-> 0, r |-> <<1,1>>], OneNote(1, 64)), Ent([b |-> 3, d |-> 0, r |-> <<1,1>>], <<>>)>>]
+Doubled ==
+  {[bpm |-> 120, repeat |-> 0, tracks |-> ts] : ts \in {
+     <<TrackOf(<<76, 101, 97, 100>>, Midi(73), <<BarX, BarY>>), TrackOf(<<66, 97, 115, 115, 32, 49>>, Midi(68), <<BarX, BarY>>)>>,
+     <<TrackOf(<<65>>, NoInstr, <<BarX>>), TrackOf(<<66>>, Midi(40), <<BarY>>), TrackOf(<<67>>, Midi(41), <<BarX>>)>>,
+     <<TrackOf(<<65>>, NoInstr, <<BarY, BarY>>), TrackOf(<<66>>, NoInstr, <<BarY, BarY>>), TrackOf(<<67>>, NoInstr, <<BarY, BarY>>)>>}}
 Systematic ==
+  Doubled \cup
   {OneBarProg(k, <<4,4>>, <<Ent(Q, OneNote(1, 64)), Ent(Q, <<>>)>>, NoInstr, 0) : k \in AllKeys} \cup
   {OneBarProg(<<"C">>, m, <<Ent(UnitValue(m[2]), OneNote(1, 64))>>, NoInstr, 0) : m \in Meters} \cup
   {OneBarProg(<<"C">>, <<4,4>>, <<Ent(Q, OneNote(ch, vel))>>, NoInstr, 0) : ch \in 0..15, vel \in {0, 1, 64, 126, 127}} \cup
